@@ -124,6 +124,9 @@ def run(pid):
         report_bad(rep, ws, by3)
         total += len(ws)
     rep.cov["traces_validated_against_impl"] = total
+    if pid == "C09":
+        import c03
+        c03.crash_clause_c09(rep, rng, thorough)
     rep.cov["exhaustive"] = True
     rep.cov["distinct_nontrivial"] = len({json.dumps(s["ops"]) for s in scens}) + len({json.dumps(s["ops"]) for s in sc2})
     rep.cov["failures_not_attributed_to_this_property"] = unattributed
